@@ -118,6 +118,9 @@ def g_class(rng, depth, cfg, tag=None):
     n = rng.randint(0 if tag else 1, 3)
     names = rng.sample(['a', 'b', 'c', 'x', 'y', 'my_field', 'val'], n)
     tuple_in = rng.random() < 0.35
+    nd = (cfg or {}).get('naming_density', 1.0)
+    cls_rename = rng.random() < min(0.6, 0.18 * nd)
+    dense = (2.5 if cls_rename else 1.0) * nd   # field-level naming options interact with class-level styles
     fields = []
     seen_default = False
     kw_only_started = False
@@ -138,14 +141,15 @@ def g_class(rng, depth, cfg, tag=None):
                 f['default'] = ('value', dv)
             if not kw_only_started:
                 seen_default = True
-        r = rng.random()
-        if r < 0.12:
-            f['aliases'] = [nm + '_alias', nm[0].upper()]
-        elif r < 0.2:
-            f['in_names'] = [nm + '_in', nm]
-        elif r < 0.26:
-            f['rename'] = nm + 'R'
-        if rng.random() < 0.08:
+        if rng.random() < min(0.85, 0.26 * dense):
+            kind = rng.choices(['aliases', 'in_names', 'rename'], [12, 8, 6 if dense <= 1 else 10])[0]
+            if kind == 'aliases':
+                f['aliases'] = [nm + '_alias', nm[0].upper()]
+            elif kind == 'in_names':
+                f['in_names'] = [nm + '_in', nm]
+            else:
+                f['rename'] = rng.choice([nm + 'R', nm + '_id', 'the' + nm.title() + 'ID'])
+        if rng.random() < 0.08 * dense:
             f['out_name'] = nm + '_out'
         if rng.random() < 0.06 and 'default' in f:
             f['exclude'] = True
@@ -159,10 +163,13 @@ def g_class(rng, depth, cfg, tag=None):
             opts['out_format'] = 'tuple'
     if rng.random() < 0.2:
         opts['allow_extra'] = True
-    if rng.random() < 0.12:
-        opts['rename'] = rng.choice(['camel', 'pascal', 'kebab', 'scream'])
-    elif rng.random() < 0.06:
-        opts['in_rename'] = rng.sample(['snake', 'camel', 'kebab'], 2)
+    if cls_rename:
+        if rng.random() < 0.7:
+            opts['rename'] = rng.choice(['camel', 'pascal', 'kebab', 'scream', 'snake'])
+        else:
+            opts['in_rename'] = rng.sample(['snake', 'camel', 'kebab'], 2)
+            if rng.random() < 0.5:
+                opts['out_rename'] = rng.choice(opts['in_rename'] + ['pascal'])
     hook = None
     real = [f for f in fields if not f.get('kw_marker')]
     r = rng.random()
@@ -221,6 +228,8 @@ def g_type(rng, depth, cfg=None, top=True):
             [('class', g_class(rng, 1, cfg)), ('class', g_class(rng, 1, cfg))],
             [('seq', 'set', ('scalar', 'int')), ('seq', 'list', ('scalar', 'int'))],
             [('none',), ('scalar', 'int'), ('scalar', 'float')],
+            [('std', 'date'), ('std', 'datetime')], [('std', 'time'), ('std', 'datetime')], [('std', 'datetime'), ('std', 'date')],
+            [('std', 'decimal'), ('std', 'fraction')], [('std', 'pattern'), ('scalar', 'str')], [('scalar', 'int'), ('std', 'decimal')],
             [('cond', ('scalar', 'int'), ('adj', 'positive')), ('scalar', 'int')],
             [('cond', ('scalar', 'int'), ('adj', 'positive')), ('cond', ('scalar', 'float'), ('adj', 'negative')), ('scalar', 'str')],
         ])
@@ -327,7 +336,7 @@ def g_valid(rng, term, depth=3):
     if k == 'std':
         s = term[1]
         pool = {'decimal': ['1.5', '-2', 'NaN', 3, 2.5, 'abc', '1e5'], 'fraction': ['1/3', '2', '1/0', 5, 0.5, 'x/y'],
-                'datetime': ['2020-01-02T03:04:05', '2020-01-02', 'nope', '2020-13-01T00:00:00'],
+                'datetime': ['2020-01-02T03:04:05', '2020-01-02', 'nope', '2020-13-01T00:00:00', '2021-05-06T07:08:09'],
                 'date': ['2020-01-02', '2020-02-30', 'x'], 'time': ['03:04:05', '25:00', '03:04'],
                 'path': ['a/b', '', '/x', 'c.txt'], 'pathlike': ['a/b', 'x'],
                 'pattern': ['a+b', '(', 'a{4294967296}', '[a-z]*', ''], 'pattern_str': ['a+b', '(', '\\d+'],
@@ -375,6 +384,21 @@ def g_valid(rng, term, depth=3):
         if not isinstance(body, dict):
             return body
         body = {kk: vv for kk, vv in body.items() if kk != tag}
+        shape = rng.random()
+        if shape < 0.22:
+            # near-valid shapes of the three layouts: surplus key, missing key, odd tag value
+            extra_key = rng.choice(['zz', 'comment', 'extra', 1])
+            odd_tag = rng.choice([None, [1], {}, 'zzz', 1.5, True])
+            if lay == 'internal':
+                d = dict(body)
+                d[tag] = tv if shape < 0.11 else odd_tag
+                if shape < 0.11:
+                    d[extra_key] = g_scalar_value(rng)
+                return d
+            if lay == 'external':
+                return rng.choice([{tv: body, extra_key: 1}, {}, {'zzz': body}, {tv: body, 'other': body}])
+            return rng.choice([{lay[1]: tv, lay[2]: body, extra_key: None}, {lay[1]: tv}, {lay[2]: body},
+                               {lay[1]: 'zzz', lay[2]: body}, {lay[1]: tv, extra_key: body}, {lay[1]: [1], lay[2]: body}])
         if lay == 'internal':
             d = dict(body)
             d[tag] = tv
@@ -521,3 +545,40 @@ def g_value_for(rng, term):
             v = mutate(rng, v)
         return v, 'near'
     return g_arbitrary(rng, 2), 'arbitrary'
+
+
+TWIN_FAMILIES = [
+    ([('scalar', 'int'), ('scalar', 'float')], [1, 2, 1.5, True]),
+    ([('scalar', 'float'), ('scalar', 'complex')], [1, 2.5]),
+    ([('scalar', 'bool'), ('scalar', 'int')], [True, 0, 1]),
+    ([('seq', 'list', ('scalar', 'int')), ('seq', 'tuple', ('scalar', 'int'))], [[1, 2], (3,), []]),
+    ([('scalar', 'str'), ('literal', ['a'])], ['a', 'b']),
+    ([('literal', [1]), ('scalar', 'float')], [1, 1.0, 2]),
+    ([('seq', 'set', ('scalar', 'int')), ('seq', 'list', ('scalar', 'int'))], [[1, 1, 2]]),
+    ([('dict', ('scalar', 'str'), ('scalar', 'int')), ('dict', ('scalar', 'str'), ('scalar', 'float'))], [{'a': 1}, {'a': 1.5}]),
+    ([('scalar', 'int'), ('scalar', 'float'), ('none',)], [1, None, 2.5]),
+]
+
+
+def twin_union_cases(rng):
+    """for each overlapping family: the union in both member orders, alone and under every wrapper
+    (typing generics and the tuple / struct *literal* type forms), with values from the overlap.
+    Both orders are used in the same process: the result must not depend on which was seen first."""
+    out = []
+    for members, vals in TWIN_FAMILIES:
+        orders = [list(members), list(reversed(members))]
+        if rng.random() < 0.5:
+            orders.reverse()
+        for ms in orders:
+            u = ('union', ms)
+            wrappers = [
+                (u, lambda v: v), (('seq', 'list', u), lambda v: [v]), (('dict', ('scalar', 'str'), u), lambda v: {'k': v}),
+                (('tuple', [u], 'typing'), lambda v: [v]), (('tuple', [u], 'literal'), lambda v: [v]),
+                (('tuple', [u, ('scalar', 'str')], 'literal'), lambda v: (v, 's')), (('struct', [('f', u)]), lambda v: {'f': v}),
+                (('struct', [('f', ('tuple', [u], 'literal'))]), lambda v: {'f': [v]}),
+                (('union', [('seq', 'list', u), ('none',)]), lambda v: [v]),
+            ]
+            for term, wrapv in wrappers:
+                for v in vals:
+                    out.append((term, wrapv(v)))
+    return out
